@@ -10,9 +10,10 @@
      52 VSUB   tok path                       -> [0 handle] | [1 number reason]
      53 VUNSUB handle                         -> [0] | [1 number reason]
      54 VRECV  handle k                       -> up to k events [120 value ts] | [121 number], then [101 n ended]
+     56 VMETA  path                           -> [0 n] then [205 id entry_type data_type allowed] per selected signal
    text ::= 0 (null) | 1 str | 2 n str*
    Not modelled: JSON framing, request ids (checked by the harness: every reply carries the id of its
-   request), the static-metadata filter, float texts outside FloatLit's class. *)
+   request), float texts outside FloatLit's class. *)
 From Coq Require Import ZArith Bool List.
 From KD Require Import Model.Values Model.Compare Model.Validate Model.Perm Model.Glob Model.Broker
      Model.BrokerRun Model.Api Model.ApiRun Model.FloatLit.
@@ -329,10 +330,41 @@ Definition viss_step (st : state) (l : list Z) : option (state * list (list Z)) 
   | _ => None
   end.
 
+(* ---------- static metadata (get with filter static-metadata) ---------- *)
+(* served without looking at the token (metadata is not protected). generate_metadata selects every entry whose
+   path STARTS WITH the requested path as a string (str::starts_with: no level boundary) and nests them into a
+   tree; the harness flattens the tree again, so the observable is the set of selected signals, each with the
+   entry type the tree names it with, its data type and its allowed list (unit, min, max are not reported) *)
+Fixpoint bytes_prefix (p s : list Z) : bool :=
+  match p with
+  | [] => true
+  | c :: r => match s with [] => false | d :: t => (c =? d) && bytes_prefix r t end
+  end.
+
+Definition viss_metadata_line (ie : Z * entry) : list Z :=
+  let m := e_meta (snd ie) in
+  [205; fst ie; kuksa_entry_type (m_etype m); kuksa_data_type (m_dtype m)] ++ enc_opt_val (m_allowed m).
+
+Definition viss_metadata (st : state) (path : list Z) : list (list Z) :=
+  let sel := filter (fun ie => bytes_prefix path (m_path (e_meta (snd ie)))) (entries (st_db st)) in
+  [0; Z.of_nat (length sel)] :: map viss_metadata_line (sort_by fst sel).
+
+Definition viss_meta_step (st : state) (l : list Z) : option (state * list (list Z)) :=
+  match l with
+  | 56 :: r => match dec_str r with
+               | Some (path, []) => Some (st, viss_metadata st path)
+               | _ => None
+               end
+  | _ => None
+  end.
+
 Definition viss_top_step (st0 : state) (l : list Z) : state * list (list Z) :=
   match viss_step (tick_clock st0) l with
   | Some r => r
-  | None => top_step st0 l
+  | None => match viss_meta_step (tick_clock st0) l with
+            | Some r => r
+            | None => top_step st0 l
+            end
   end.
 
 Fixpoint viss_run (st : state) (ops : list (list Z)) : list (list Z) :=
